@@ -1040,6 +1040,18 @@ def d7_predicates(prog, rep):
         me = ('arg', 1, f.names.get(1))
         other = ('arg', 2, f.names.get(2))
         conds = [cn for gl in f.guards().values() for cn, v in gl]
+        # a sign test kept in a local closure (`let opposite_sign = |a, b| ..`) is part of the predicate: its conditions and value count
+        for cb in pdb.closures_of(k):
+            g_ = prog.func(cb.key)
+            if g_ is None:
+                continue
+            rep.touch(cb.key)
+            conds += [cn for gl in g_.guards().values() for cn, v in gl] + list(g_.return_values())
+            fparams = [('arg', i + 1, g_.names.get(i + 1)) for i in range(1, g_.body.arg_count) if g_.body.local_ty(i + 1) in ('f64', '&f64')]
+            for cn in [cn for gl in g_.guards().values() for cn, v in gl] + list(g_.return_values()):
+                for z in subterms(cn):
+                    if tag(z) == 'bin' and z[1] == 'Mul' and len(fparams) >= 2 and {z[2], z[3]} == set(fparams[:2]):
+                        conds.append(('bin', 'Mul', ('index', me, ('const', 'usize', 0)), ('index', other, ('const', 'usize', 0)), 'f64'))
         sign_aware = False
         sign_by_product = False
         uses_reldiff = False
